@@ -1,0 +1,510 @@
+// Verification-only synchronisation shim. Compiled only with
+// `--cfg prometheus_verif`; never part of a normal build.
+//
+// Drop-in wrappers for exactly the API subset of `std::sync::atomic::AtomicU64`,
+// `AtomicI64`, `std::sync::Mutex` and `parking_lot::RwLock` this crate uses.
+// Every operation reports to an optional global hook before it is executed and
+// again after it returned; the hook may delay the calling thread (that is how
+// an external scheduler serialises the library's atomic steps) and may ask a
+// `compare_exchange_weak` to fail spuriously (which the weak form permits).
+// With no hook installed a wrapper is the real primitive plus one relaxed load.
+
+#![allow(missing_docs)]
+#![allow(missing_debug_implementations)]
+
+use std::ops::{Deref, DerefMut};
+use std::sync::atomic::{self, AtomicUsize, Ordering};
+use std::sync::{LockResult, PoisonError, TryLockError};
+
+/// What kind of step is reported.
+#[derive(Clone, Copy, Debug, PartialEq, Eq, Hash)]
+pub enum OpKind {
+    Load,
+    Store,
+    Swap,
+    FetchAdd,
+    FetchSub,
+    CasWeak,
+    MutexTryLock,
+    MutexUnlock,
+    RwTryRead,
+    RwTryWrite,
+    RwUnlockRead,
+    RwUnlockWrite,
+}
+
+/// Reported before the step is executed or after it returned.
+#[derive(Clone, Copy, Debug, PartialEq, Eq, Hash)]
+pub enum Phase {
+    Before,
+    After,
+}
+
+/// One report to the hook.
+#[derive(Clone, Copy, Debug)]
+pub struct Event {
+    pub phase: Phase,
+    pub kind: OpKind,
+    /// Address of the wrapper object (stable for the object's lifetime).
+    pub addr: usize,
+    /// Ordering of the operation (success ordering for a CAS).
+    pub ordering: Ordering,
+    /// Failure ordering of a CAS (same as `ordering` otherwise).
+    pub failure: Ordering,
+    /// Operand: value stored / added / subtracted / swapped in; `new` for a CAS.
+    pub operand: u64,
+    /// Expected value of a CAS.
+    pub expected: u64,
+    /// After only: value read (load), previous value (swap, fetch_*), value
+    /// found (CAS).
+    pub result: u64,
+    /// After only: the CAS succeeded / the try-lock acquired the lock.
+    pub ok: bool,
+}
+
+/// Answer of the hook to a `Before` report.
+#[derive(Clone, Copy, Debug, PartialEq, Eq)]
+pub enum Action {
+    Continue,
+    /// Honoured by `compare_exchange_weak` only: do not attempt the exchange,
+    /// report failure with the current value.
+    SpuriousFail,
+}
+
+pub type Hook = fn(&Event) -> Action;
+
+static HOOK: AtomicUsize = AtomicUsize::new(0);
+
+/// Install or remove the global hook.
+pub fn set_hook(hook: Option<Hook>) {
+    HOOK.store(hook.map(|h| h as usize).unwrap_or(0), Ordering::SeqCst);
+}
+
+#[inline]
+fn hook() -> Option<Hook> {
+    let h = HOOK.load(Ordering::Relaxed);
+    if h == 0 {
+        None
+    } else {
+        // SAFETY: only `set_hook` writes this word and it only stores valid `Hook` pointers.
+        Some(unsafe { std::mem::transmute::<usize, Hook>(h) })
+    }
+}
+
+#[inline]
+fn ev(kind: OpKind, addr: usize, ordering: Ordering, failure: Ordering, operand: u64, expected: u64) -> Event {
+    Event {
+        phase: Phase::Before,
+        kind,
+        addr,
+        ordering,
+        failure,
+        operand,
+        expected,
+        result: 0,
+        ok: true,
+    }
+}
+
+#[inline]
+fn after(h: Hook, mut e: Event, result: u64, ok: bool) {
+    e.phase = Phase::After;
+    e.result = result;
+    e.ok = ok;
+    h(&e);
+}
+
+macro_rules! atomic_wrapper {
+    ($name:ident, $std:ty, $t:ty) => {
+        #[derive(Debug)]
+        pub struct $name {
+            inner: $std,
+        }
+
+        impl $name {
+            pub const fn new(v: $t) -> Self {
+                Self {
+                    inner: <$std>::new(v),
+                }
+            }
+
+            #[inline]
+            fn addr(&self) -> usize {
+                self as *const Self as usize
+            }
+
+            pub fn load(&self, order: Ordering) -> $t {
+                match hook() {
+                    None => self.inner.load(order),
+                    Some(h) => {
+                        let e = ev(OpKind::Load, self.addr(), order, order, 0, 0);
+                        h(&e);
+                        let r = self.inner.load(order);
+                        after(h, e, r as u64, true);
+                        r
+                    }
+                }
+            }
+
+            pub fn store(&self, v: $t, order: Ordering) {
+                match hook() {
+                    None => self.inner.store(v, order),
+                    Some(h) => {
+                        let e = ev(OpKind::Store, self.addr(), order, order, v as u64, 0);
+                        h(&e);
+                        self.inner.store(v, order);
+                        after(h, e, 0, true);
+                    }
+                }
+            }
+
+            pub fn swap(&self, v: $t, order: Ordering) -> $t {
+                match hook() {
+                    None => self.inner.swap(v, order),
+                    Some(h) => {
+                        let e = ev(OpKind::Swap, self.addr(), order, order, v as u64, 0);
+                        h(&e);
+                        let r = self.inner.swap(v, order);
+                        after(h, e, r as u64, true);
+                        r
+                    }
+                }
+            }
+
+            pub fn fetch_add(&self, v: $t, order: Ordering) -> $t {
+                match hook() {
+                    None => self.inner.fetch_add(v, order),
+                    Some(h) => {
+                        let e = ev(OpKind::FetchAdd, self.addr(), order, order, v as u64, 0);
+                        h(&e);
+                        let r = self.inner.fetch_add(v, order);
+                        after(h, e, r as u64, true);
+                        r
+                    }
+                }
+            }
+
+            pub fn fetch_sub(&self, v: $t, order: Ordering) -> $t {
+                match hook() {
+                    None => self.inner.fetch_sub(v, order),
+                    Some(h) => {
+                        let e = ev(OpKind::FetchSub, self.addr(), order, order, v as u64, 0);
+                        h(&e);
+                        let r = self.inner.fetch_sub(v, order);
+                        after(h, e, r as u64, true);
+                        r
+                    }
+                }
+            }
+
+            pub fn compare_exchange_weak(
+                &self,
+                current: $t,
+                new: $t,
+                success: Ordering,
+                failure: Ordering,
+            ) -> Result<$t, $t> {
+                match hook() {
+                    None => self.inner.compare_exchange_weak(current, new, success, failure),
+                    Some(h) => {
+                        let e = ev(
+                            OpKind::CasWeak,
+                            self.addr(),
+                            success,
+                            failure,
+                            new as u64,
+                            current as u64,
+                        );
+                        let r = match h(&e) {
+                            Action::SpuriousFail => Err(self.inner.load(failure)),
+                            Action::Continue => {
+                                self.inner.compare_exchange_weak(current, new, success, failure)
+                            }
+                        };
+                        match r {
+                            Ok(v) => after(h, e, v as u64, true),
+                            Err(v) => after(h, e, v as u64, false),
+                        }
+                        r
+                    }
+                }
+            }
+        }
+    };
+}
+
+atomic_wrapper!(AtomicU64, atomic::AtomicU64, u64);
+atomic_wrapper!(AtomicI64, atomic::AtomicI64, i64);
+
+/// `std::sync::Mutex` look-alike (`new`, `lock`).
+#[derive(Debug)]
+pub struct Mutex<T> {
+    inner: std::sync::Mutex<T>,
+}
+
+pub struct MutexGuard<'a, T> {
+    guard: Option<std::sync::MutexGuard<'a, T>>,
+    addr: usize,
+}
+
+impl<T> Mutex<T> {
+    pub fn new(t: T) -> Self {
+        Self {
+            inner: std::sync::Mutex::new(t),
+        }
+    }
+
+    #[inline]
+    fn addr(&self) -> usize {
+        self as *const Self as usize
+    }
+
+    pub fn lock(&self) -> LockResult<MutexGuard<'_, T>> {
+        let addr = self.addr();
+        match hook() {
+            None => match self.inner.lock() {
+                Ok(g) => Ok(MutexGuard {
+                    guard: Some(g),
+                    addr,
+                }),
+                Err(p) => Err(PoisonError::new(MutexGuard {
+                    guard: Some(p.into_inner()),
+                    addr,
+                })),
+            },
+            Some(h) => loop {
+                let e = ev(
+                    OpKind::MutexTryLock,
+                    addr,
+                    Ordering::Acquire,
+                    Ordering::Relaxed,
+                    0,
+                    0,
+                );
+                h(&e);
+                match self.inner.try_lock() {
+                    Ok(g) => {
+                        after(h, e, 0, true);
+                        return Ok(MutexGuard {
+                            guard: Some(g),
+                            addr,
+                        });
+                    }
+                    Err(TryLockError::Poisoned(p)) => {
+                        after(h, e, 0, true);
+                        return Err(PoisonError::new(MutexGuard {
+                            guard: Some(p.into_inner()),
+                            addr,
+                        }));
+                    }
+                    Err(TryLockError::WouldBlock) => {
+                        after(h, e, 0, false);
+                    }
+                }
+            },
+        }
+    }
+}
+
+impl<T> Deref for MutexGuard<'_, T> {
+    type Target = T;
+    fn deref(&self) -> &T {
+        self.guard.as_ref().unwrap()
+    }
+}
+
+impl<T> DerefMut for MutexGuard<'_, T> {
+    fn deref_mut(&mut self) -> &mut T {
+        self.guard.as_mut().unwrap()
+    }
+}
+
+impl<T> Drop for MutexGuard<'_, T> {
+    fn drop(&mut self) {
+        match hook() {
+            None => drop(self.guard.take()),
+            Some(h) => {
+                let e = ev(
+                    OpKind::MutexUnlock,
+                    self.addr,
+                    Ordering::Release,
+                    Ordering::Release,
+                    0,
+                    0,
+                );
+                h(&e);
+                drop(self.guard.take());
+                after(h, e, 0, true);
+            }
+        }
+    }
+}
+
+/// `parking_lot::RwLock` look-alike (`new`, `read`, `write`).
+#[derive(Debug)]
+pub struct RwLock<T> {
+    inner: parking_lot::RwLock<T>,
+}
+
+pub struct RwLockReadGuard<'a, T> {
+    guard: Option<parking_lot::RwLockReadGuard<'a, T>>,
+    addr: usize,
+}
+
+pub struct RwLockWriteGuard<'a, T> {
+    guard: Option<parking_lot::RwLockWriteGuard<'a, T>>,
+    addr: usize,
+}
+
+impl<T> RwLock<T> {
+    pub fn new(t: T) -> Self {
+        Self {
+            inner: parking_lot::RwLock::new(t),
+        }
+    }
+
+    #[inline]
+    fn addr(&self) -> usize {
+        self as *const Self as usize
+    }
+
+    pub fn read(&self) -> RwLockReadGuard<'_, T> {
+        let addr = self.addr();
+        match hook() {
+            None => RwLockReadGuard {
+                guard: Some(self.inner.read()),
+                addr,
+            },
+            Some(h) => loop {
+                let e = ev(
+                    OpKind::RwTryRead,
+                    addr,
+                    Ordering::Acquire,
+                    Ordering::Relaxed,
+                    0,
+                    0,
+                );
+                h(&e);
+                match self.inner.try_read() {
+                    Some(g) => {
+                        after(h, e, 0, true);
+                        return RwLockReadGuard {
+                            guard: Some(g),
+                            addr,
+                        };
+                    }
+                    None => after(h, e, 0, false),
+                }
+            },
+        }
+    }
+
+    pub fn write(&self) -> RwLockWriteGuard<'_, T> {
+        let addr = self.addr();
+        match hook() {
+            None => RwLockWriteGuard {
+                guard: Some(self.inner.write()),
+                addr,
+            },
+            Some(h) => loop {
+                let e = ev(
+                    OpKind::RwTryWrite,
+                    addr,
+                    Ordering::Acquire,
+                    Ordering::Relaxed,
+                    0,
+                    0,
+                );
+                h(&e);
+                match self.inner.try_write() {
+                    Some(g) => {
+                        after(h, e, 0, true);
+                        return RwLockWriteGuard {
+                            guard: Some(g),
+                            addr,
+                        };
+                    }
+                    None => after(h, e, 0, false),
+                }
+            },
+        }
+    }
+}
+
+impl<T> Deref for RwLockReadGuard<'_, T> {
+    type Target = T;
+    fn deref(&self) -> &T {
+        self.guard.as_ref().unwrap()
+    }
+}
+
+impl<T> Drop for RwLockReadGuard<'_, T> {
+    fn drop(&mut self) {
+        match hook() {
+            None => drop(self.guard.take()),
+            Some(h) => {
+                let e = ev(
+                    OpKind::RwUnlockRead,
+                    self.addr,
+                    Ordering::Release,
+                    Ordering::Release,
+                    0,
+                    0,
+                );
+                h(&e);
+                drop(self.guard.take());
+                after(h, e, 0, true);
+            }
+        }
+    }
+}
+
+impl<T> Deref for RwLockWriteGuard<'_, T> {
+    type Target = T;
+    fn deref(&self) -> &T {
+        self.guard.as_ref().unwrap()
+    }
+}
+
+impl<T> DerefMut for RwLockWriteGuard<'_, T> {
+    fn deref_mut(&mut self) -> &mut T {
+        self.guard.as_mut().unwrap()
+    }
+}
+
+impl<T> Drop for RwLockWriteGuard<'_, T> {
+    fn drop(&mut self) {
+        match hook() {
+            None => drop(self.guard.take()),
+            Some(h) => {
+                let e = ev(
+                    OpKind::RwUnlockWrite,
+                    self.addr,
+                    Ordering::Release,
+                    Ordering::Release,
+                    0,
+                    0,
+                );
+                h(&e);
+                drop(self.guard.take());
+                after(h, e, 0, true);
+            }
+        }
+    }
+}
+
+/// Addresses of one histogram shard's words, as reported in `Event::addr`.
+#[derive(Clone, Debug)]
+pub struct ShardLayout {
+    pub count: usize,
+    pub sum: usize,
+    pub buckets: Vec<usize>,
+}
+
+/// Addresses of a histogram's synchronisation words, as reported in `Event::addr`.
+#[derive(Clone, Debug)]
+pub struct HistogramLayout {
+    pub shard_and_count: usize,
+    pub collect_lock: usize,
+    pub shards: [ShardLayout; 2],
+}
